@@ -98,11 +98,10 @@ def onEvent (ps : PState) (self : Int) (kind : String) (a b c d : Int) : R := do
         doStep ps1 (.spawn v p) s!"spawn {a} under {b}"
   | "THREAD_EXIT" =>
       let v ← needSlot ps a
-      if b == 1 then
-        let ps1 ← doStep ps (.exit v) s!"exit {a} (pc {showPc (s.pc v)})"
-        .ok { ps1 with slots := ps1.slots.filter (fun p => p.1 != a) }
-      else
-        check ps (s.pc v == .done) s!"THREAD_EXIT {a} without terminate but model pc is {showPc (s.pc v)}"
+      -- the quit path leaves the loop by itself (`hasQuitAck`); otherwise the thread was terminated by ~WorkerThread
+      if s.pc v == .done then .ok ps else
+      let ps1 ← doStep ps (.exit v) s!"exit {a} (pc {showPc (s.pc v)}, terminate {b})"
+      .ok { ps1 with slots := ps1.slots.filter (fun p => p.1 != a) }
   | "WAIT_RET" =>
       let v ← needSlot ps a
       doStep ps (.waitRet v) s!"WAIT_RET {a} (pc {showPc (s.pc v)}, flag {s.flag v})"
